@@ -34,6 +34,11 @@ def run_cases(ck, res, n_cases, n_interval, exhaustive=False):
             cols[lk['t_1']] = [attrs['t_0'] + r.choice([-1, 1]) * (dy(r, 0, 2) + 0.25) for _ in range(nrows)]
         elif 't_0' in lk and kind == 'bvp':
             cols[lk['t_0']] = [attrs['t_1'] + r.choice([-1, 1]) * (dy(r, 0, 2) + 0.25) for _ in range(nrows)]
+        # every 7th case: the FIRST bundle column is an integer-dtype tensor (a mode number, an integer initial value); the
+        # constructor parameters keep their own (float) values whatever the dtype of a sibling column
+        int_col0 = ci % 7 == 3 and not ('t_1' in lk and lk['t_1'] == 0) and not ('t_0' in lk and lk['t_0'] == 0)
+        if int_col0:
+            cols[0] = [float(r.randint(-3, 3)) for _ in range(nrows)]
         rowval = lambda name, i: cols[lk[name]][i] if name in lk else attrs[name]
         # rows: row 0 at t = t_0(row), row 1 at t = t_1(row) (bvp) else random
         ts = [rowval('t_0', 0), rowval('t_1', 1) if kind == 'bvp' else dy(r, -2, 2, 4), dy(r, -2, 2, 4), dy(r, -2, 2, 4)]
@@ -58,6 +63,8 @@ def run_cases(ck, res, n_cases, n_interval, exhaustive=False):
                     cond = C.BundleDirichletBVP(t_0=attrs['t_0'], u_0=attrs['u_0'], t_1=attrs['t_1'], u_1=attrs['u_1'], bundle_param_lookup=dict(lk))
             T = enga.col(torch, ts)
             THS = [enga.col(torch, c) for c in cols]
+            if int_col0:
+                THS[0] = torch.tensor([[int(v)] for v in cols[0]], dtype=torch.int64)
             u = cond.enforce(net, T, *THS)
             du = safe_diff(u, T)
         except Exception as e:
@@ -65,7 +72,7 @@ def run_cases(ck, res, n_cases, n_interval, exhaustive=False):
             continue
         uv = [float(x) for x in u.detach().reshape(-1)]
         dv = [float(x) for x in du.detach().reshape(-1)]
-        inp = {'kind': kind, 'lookup': lk, 'prime_attr': pa, 'attrs': attrs, 'columns': cols, 't': ts, 'net': net_p.describe(), 'constructor_spelling': spelling}
+        inp = {'kind': kind, 'lookup': lk, 'prime_attr': pa, 'attrs': attrs, 'columns': cols, 't': ts, 'net': net_p.describe(), 'constructor_spelling': spelling, 'integer_first_column': int_col0}
         scale = 1 + max(abs(x) for x in uv)
         # ---- the property's oracle
         if not enga.close(uv[0], rowval('u_0', 0), scale, rel=enga.EXACT):
